@@ -93,7 +93,9 @@ class CodeGenerator:
                 mem.extend(self.gen_global_ival(expr, field.typ))
             return mem
 
+        # The value is stored as a value of this type:
         cval = self.context.eval_const(ival)
+        cval = self.context._fit(cval, typ, ival.loc)
         if isinstance(typ, ast.FloatType):
             cval = self.context.pack_float(cval, bits=typ.bits)
         elif isinstance(typ, ast.SignedIntegerType):
